@@ -9,7 +9,8 @@
 EXTENDS Filter, Json
 CONSTANTS P,          \* positions 0..P
           MaxNon, MaxRef,
-          Focus        \* TRUE: only full case citations, full span start in {s, s-1, 0}, end in {e, P}
+          Focus        \* "none"; "wide": only full case citations, full span start in {s, s-1, 0}, end in {e, P};
+                       \* "unit": as "wide" and every non-reference span has length 1 (deep layouts, small instance)
 VARIABLES l, phase, nid
 vars == <<l, phase, nid>>
 
@@ -21,7 +22,8 @@ Init == l = <<>> /\ phase = "build" /\ nid = 1
 AddNon == /\ phase = "build" /\ Count(FALSE) < MaxNon
           /\ \E s \in 0..P, e \in 0..P, fs \in 0..P, fe \in 0..P, kd \in {"fc", "oth"} :
                /\ s < e /\ fs <= s /\ e <= fe /\ s >= LastNon
-               /\ (Focus => (kd = "fc" /\ fs \in {s, s - 1, 0} /\ fe \in {e, P}))
+               /\ (Focus # "none" => (kd = "fc" /\ fs \in {s, s - 1, 0} /\ fe \in {e, P}))
+               /\ (Focus = "unit" => e = s + 1)
                /\ l' = Append(l, [s |-> s, e |-> e, fs |-> fs, fe |-> fe, kind |-> kd, id |-> nid])
           /\ nid' = nid + 1 /\ UNCHANGED phase
 (* a reference for full case citation k: after its span; inserted before it, or appended *)
